@@ -712,6 +712,209 @@ def check_misc(orc, script, meta, out):
                          "points", None, [line], {"x": x, "value": v, "lo": lo, "hi": hi})
 
 
+
+# --------------------------------------------------------------------------- round 3: real builders
+def gen_builder_cases(rng, n_cases):
+    """(emin, eprime, emax, n, j, sigma): eprime meant to sit on grid point j"""
+    out = []
+    for _ in range(n_cases):
+        k = rng.below(4)
+        if k <= 1:      # decade bounds, integer bins per decade, eprime a power of ten
+            a, span = rng.range(-7, 2), rng.range(1, 12)
+            b = a + span
+            per = rng.choice([1, 2, 3, 4, 5, 6, 7, 8, 10, 12, 14, 20])
+            n = span * per + 1
+            c = rng.range(a, b - 1)
+            emin, emax, eprime = float("1e%d" % a), float("1e%d" % b), float("1e%d" % c)
+            j = (c - a) * per
+        else:
+            emin = logu(rng, 1e-8, 1.0)
+            emax = emin * logu(rng, 3.0, 1e10)
+            n = rng.range(2, 120)
+            j = rng.below(n - 1)
+            front, back = math.log(emin), math.log(emax)
+            delta = (back - front) / (n - 1)
+            m = rng.below(3)
+            eprime = (math.exp(front + delta * j) if m == 0
+                      else emin * (emax / emin) ** (j / (n - 1)) if m == 1
+                      else math.exp(math.log(emin) * (1 - j / (n - 1)) + math.log(emax) * (j / (n - 1))))
+            if j == 0:
+                eprime = emin
+        if rng.chance(1, 3) and j > 0:
+            eprime = ulps(eprime, rng.range(-2, 2))
+        if not (emin <= eprime < emax) or n < 2:
+            continue
+        sigma = gen_table(rng, n)
+        out.append((emin, eprime, emax, n, j, sigma))
+    return out
+
+
+def builder_script(rng, cases):
+    script, meta = [], []
+    for ci, (emin, eprime, emax, n, j, sigma) in enumerate(cases):
+        front, back = math.log(emin), math.log(emax)
+        delta = (back - front) / (n - 1)
+        en = [math.exp(front + delta * i) for i in range(n)]
+        xs = [sigma[i] * en[i] if i >= j else sigma[i] for i in range(n)]
+        script.append("xsbuild 4 %s %s %s %d %s" % (hx(emin), hx(eprime), hx(emax), n,
+                                                     " ".join(hx(v) for v in xs)))
+        meta.append(("xsbuild", ci))
+        idx = sorted(set([0, n - 1, max(j - 1, 0), j, min(j + 1, n - 1)]
+                         + [rng.below(n) for _ in range(4)]))
+        for i in idx:
+            script.append("xsat 4 %d" % i)
+            meta.append(("bknot", ci, i, sigma[i], xs[i], en[i]))
+            script.append("xs 4 %s" % hx(en[i]))
+            meta.append(("bxs", ci, i, sigma))
+    return script, meta
+
+
+def check_builder(orc, cases, script, meta, out):
+    cur = None
+    for line, m, o in zip(script, meta, out):
+        if m[0] == "xsbuild":
+            cur = line
+            emin, eprime, emax, n, j, sigma = cases[m[1]]
+            w = o.split()
+            orc.count("xsbuild")
+            if len(w) != 3 or w[0] != "ok":
+                orc.fail("xsbuilder-build", "ValueGridXsBuilder::build failed", None, [line],
+                         {"answer": o})
+                continue
+            if int(w[2]) != j:
+                orc.fail("xsbuilder-prime-index", "ValueGridXsBuilder::build stores a prime_index "
+                         "that is not the grid point of eprime: values at/above eprime are then "
+                         "(un)scaled by E at the wrong knots", None, [line],
+                         {"emin": emin, "eprime": eprime, "emax": emax, "size": n,
+                          "expected_prime_index": j, "stored_prime_index": int(w[2])})
+        elif m[0] == "bknot":
+            _, ci, i, sig, stored, e = m
+            if not is_val(o):
+                continue
+            v = fl(o)
+            orc.count("builder_knot")
+            if not rel_close(v, sig, 1e-11):
+                c = cases[ci]
+                orc.fail("xsbuilder-knot-values", "table built by ValueGridXsBuilder does not "
+                         "reproduce the input cross section at a knot", None, [cur, line],
+                         {"emin": c[0], "eprime": c[1], "emax": c[2], "size": c[3],
+                          "prime_knot": c[4], "knot": i, "input_xs": sig, "value": v,
+                          "ratio": v / sig if sig else None})
+        elif m[0] == "bxs":
+            _, ci, i, sigma = m
+            if not is_val(o):
+                continue
+            v = fl(o)
+            c = cases[ci]
+            n = c[3]
+            near = [sigma[q] for q in (max(i - 1, 0), i, min(i + 1, n - 1))]
+            orc.count("builder_xs")
+            # log(exp(x_i)) may fall in the neighbouring bin: between the neighbours, close to i
+            if not (min(near) - 1e-11 * max(near) <= v <= max(near) * (1 + 1e-11)) or \
+                    not rel_close(v, sigma[i], 1e-9, max(near)):
+                orc.fail("xsbuilder-knot-values", "XsCalculator on the table built by "
+                         "ValueGridXsBuilder does not reproduce the input cross section at a knot "
+                         "energy", None, [cur, line],
+                         {"emin": c[0], "eprime": c[1], "emax": c[2], "size": n, "prime_knot": c[4],
+                          "knot": i, "input_xs": sigma[i], "value": v})
+
+
+def gen_sequences(rng, n_problems, n_steps):
+    """multi-step sequences on ONE track slot of a real PhysicsParams: decreasing energy, mean
+    free paths chosen so that range-limited and discrete-limited steps alternate"""
+    script, meta = [], []
+    for pi in range(n_problems):
+        emin, emax, n = gen_grid(rng, 60)
+        front, back = math.log(emin), math.log(emax)
+        delta = (back - front) / (n - 1)
+        en = [math.exp(front + delta * i) for i in range(n)]
+        L = gen_table(rng, n, 1)
+        r = [2.0 * en[0] / L[0]]
+        for i in range(n - 1):
+            r.append(r[-1] + (en[i + 1] - en[i]) * 0.5 * (1.0 / L[i] + 1.0 / L[i + 1]))
+        if not all(r[i] < r[i + 1] for i in range(n - 1)):
+            continue
+        sig = gen_table(rng, n)
+        if rng.chance(1, 2) and n > 2:
+            j = rng.below(n - 1)
+            eprime = math.exp(front + delta * j) if j else emin
+            xs = [sig[i] * en[i] if i >= j else sig[i] for i in range(n)]
+            script.append("xsbuild 5 %s %s %s %d %s" % (hx(emin), hx(eprime), hx(emax), n,
+                                                         " ".join(hx(v) for v in xs)))
+        else:
+            script.append("logbuild 5 %s %s %d %s" % (hx(emin), hx(emax), n,
+                                                       " ".join(hx(v) for v in sig)))
+        meta.append(("setup",))
+        script.append("logbuild 6 %s %s %d %s" % (hx(emin), hx(emax), n, " ".join(hx(v) for v in L)))
+        meta.append(("setup",))
+        script.append("logbuild 7 %s %s %d %s" % (hx(emin), hx(emax), n, " ".join(hx(v) for v in r)))
+        meta.append(("setup",))
+        lim = rng.choice([0.01, 0.01, 0.05, 0.2, logu(rng, 1e-3, 0.5)])
+        rho = logu(rng, r[0] * 0.1, r[-1])
+        alpha = rng.choice([0.2, 0.2, rng.unit() * 0.98 + 0.01, 1.0])
+        fixed = 0.0 if rng.chance(2, 3) else logu(rng, r[0], r[-1])
+        script.append("physbuild 5 6 7 %s %s %s %s" % (hx(lim), hx(rho), hx(alpha), hx(fixed)))
+        meta.append(("physbuild", pi))
+        setup = script[-4:]
+        e = logu(rng, emin * 2, emax * 1.2)
+        rng_mid = r[n // 2]
+        seq = []
+        for k in range(n_steps):
+            # large mfp/xs -> range limited; small -> discrete limited
+            mfp = logu(rng, 1e-6, 1e-2) if rng.chance(1, 2) else logu(rng, 1.0, 1e6)
+            frac = 1.0 if rng.chance(2, 3) else rng.unit() * 0.999 + 0.001
+            line = "pstep %s %s %s" % (hx(e), hx(mfp), hx(frac))
+            script.append(line)
+            seq.append(line)
+            meta.append(("pstep", pi, k, e, lim, frac, list(setup), list(seq)))
+            script.append("range 7 %s" % hx(e))
+            meta.append(("prange", pi, k, e))
+            e *= logu(rng, 0.2, 0.98)
+            if e < emin * 0.05:
+                break
+        del rng_mid
+    return script, meta
+
+
+def check_sequences(orc, script, meta, out):
+    last = None
+    for line, m, o in zip(script, meta, out):
+        if m[0] == "physbuild" and o != "ok":
+            orc.fail("physbuild", "PhysicsParams could not be built from the tables", None, [line],
+                     {"answer": o})
+        elif m[0] == "pstep":
+            last = (m, o)
+        elif m[0] == "prange" and last is not None:
+            pm, po = last
+            last = None
+            w = po.split()
+            if len(w) != 5 or not is_val(o):
+                orc.count("pstep_" + (w[0] if w else "empty"))
+                continue
+            _, pi, k, e, lim, frac, setup, seq = pm
+            step, act, stored, macro = fl(w[0]), w[1], fl(w[2]), fl(w[3])
+            cur = fl(o)
+            orc.count("pstep")
+            orc.count("pstep_" + act)
+            replay_ops = setup + seq + [line]
+            if hx(stored) != o:
+                orc.fail("steplimit-stale-range", "after calc_physics_step_limit the stored "
+                         "dedx_range is not RangeCalculator(E) of the current step", None,
+                         replay_ops, {"step_index": k, "E": e, "stored_dedx_range": stored,
+                                      "RangeCalculator(E)": cur, "action": act})
+            if not (0 <= step <= stored * (1 + 4 * EPS)) and act != "f":
+                orc.fail("steplimit-exceeds-range", "physics step limit larger than the range",
+                         None, replay_ops, {"step_index": k, "E": e, "step": step, "range": stored})
+            if w[4] == "nostep":
+                continue
+            loss = fl(w[4])
+            slack = 1e-9 * e
+            if not (-slack <= loss <= e + slack):
+                orc.fail("meanloss-bounds-sequence", "mean energy loss outside [0, E] on a step of "
+                         "a multi-step sequence (same track slot)", None, replay_ops,
+                         {"step_index": k, "E": e, "loss": loss, "step": frac * step,
+                          "stored_dedx_range": stored, "RangeCalculator(E)": cur, "limit": lim})
+
 # --------------------------------------------------------------------------- run
 def patch_oracles(exe, script):
     """expm1/log1p oracle inputs are computed by Python's libm binding; the harness checks
@@ -825,8 +1028,19 @@ def run(ctx):
     mscript, mmeta = gen_misc(ctx.rng, 400 * mult)
     script += mscript
     meta += mmeta
-    script += ["xs 7 3ff0000000000000", "frob", "", "xsgrid 0 1 2", "eloss 0 0 1 2 3"]
-    meta += [("bad",)] * 5
+    bcases = gen_builder_cases(ctx.rng, 300 * mult)
+    bscript, bmeta = builder_script(ctx.rng, bcases)
+    b0 = len(script)
+    script += bscript
+    meta += bmeta
+    sscript, smeta = gen_sequences(ctx.rng, 40 * mult, 12)
+    s0 = len(script)
+    script += sscript
+    meta += smeta
+    s1 = len(script)
+    script += ["xs 3 3ff0000000000000", "frob", "", "xsgrid 0 1 2", "eloss 0 0 1 2 3", "pstep 1 2",
+               "xsbuild 0 1 2 3 2 1 1"]
+    meta += [("bad",)] * 7
     patched = patch_oracles(exe, script)
     _, oh = vlib.run_lines([exe], script)
     diverged = []
@@ -841,6 +1055,8 @@ def run(ctx):
     orc = Oracle(ctx, blocks)
     orc.run(script, meta, oh)
     check_misc(orc, script, meta, oh)
+    check_builder(orc, bcases, script[b0:s0], meta[b0:s0], oh[b0:s0])
+    check_sequences(orc, script[s0:s1], meta[s0:s1], oh[s0:s1])
     # geometrical -> true with the alpha the real MscStepToGeo returned
     back_lines, back_meta = [], []
     for m, g, alpha, line in orc.back:
